@@ -99,6 +99,14 @@ def cdrfileOp : Tok → String
       | some f => "ok " ++ unwords (sFile f)
       | none => "panic"
     | none => "bad-op"
+  | ["big", n, l, _] =>   -- a file of n records of l octets each (CdrFile stream, op `big`): lengths from the model's encoders
+    match n.toNat?, l.toNat? with
+    | some n, some l =>
+      let hdr : FileHeader := { (default : FileHeader) with highRel := 6, lowRel := 6, ip := List.replicate 20 0 }
+      let ch : CdrHeader := { (default : CdrHeader) with rel := 6 }
+      let len := (encodeHeader hdr).length + n * ((encodeCdrHeader ch).length + l)
+      if n ≤ 4096 ∧ l ≤ 65535 then s!"ok len={len} flen={len} n={n} eq=1" else "bad-op"
+    | _, _ => "bad-op"
   | "rt" :: t =>
     match pFile t with
     | some (f, []) =>
